@@ -323,6 +323,17 @@ func (in *Interp) callSSA(caller *frame, fn *ssa.Function, args []Value, env []V
 				return in.callSSA(caller, st, args, nil)
 			}
 		}
+		if in.cfg.opaque[name] {
+			sym := false
+			for _, a := range args {
+				if !isConcrete(a) {
+					sym = true
+				}
+			}
+			if sym {
+				return "?"
+			}
+		}
 		if ix, ok := intrinsics[name]; ok {
 			return ix(in, caller, fn, args)
 		}
